@@ -250,6 +250,56 @@ def _leaves_wo_loop(wl, node):
 
 
 # ---------------------------------------------------------------------------------------------------------------
+# closure by worklist over an attribute (used by C06 / C09 for Type.get_supertypes): same schema, different successors
+
+def closure_obligations(fi, R, label, seed, succ_attr):
+    """`fi` computes {seed} + everything reachable through `<vertex>.<succ_attr>`"""
+    wl = Worklist(fi, R)
+    vis = _find_visited(fi.node, R, fi)
+    obs = []
+    els, unknown = wl.seeds()
+    if unknown:
+        _unknown(R, fi, "worklist initialisation `%s`" % unknown[0])
+    obs.append(Ob(R, label + ":seeded-with-%s-only" % seed, _where(fi, wl.loop), els == [seed],
+                  "before the loop the worklist `%s` receives %s; expected [%s]" % (wl.w, els, seed)))
+    sites = 0
+    for n, kind, e in wl.pushes():
+        if not is_within(n, wl.loop):
+            continue
+        if kind != "one" or not isinstance(e, ast.Name):
+            _unknown(R, fi, "push `%s` inside the loop" % src(n))
+        u = e.id
+        fors = [a for a in ancestors(n) if isinstance(a, ast.For) and is_within(a, wl.loop) and _is_name(a.target, u)]
+        if not fors:
+            _unknown(R, fi, "pushed `%s` is not the variable of an enclosing for loop" % u)
+        lp = fors[0]
+        whole = isinstance(lp.iter, ast.Attribute) and lp.iter.attr == succ_attr and _is_name(lp.iter.value, wl.v)
+        obs.append(Ob(R, label + ":expands-every-%s-of-the-popped-element" % succ_attr, _where(fi, lp),
+                      whole and not _breaks_of(lp),
+                      "`for %s in %s` must iterate all of `%s.%s` (unsliced) without break: %d break(s)"
+                      % (u, src(lp.iter), wl.v, succ_attr, len(_breaks_of(lp)))))
+        lv = _leaves_wo_loop(wl, n)
+        neg = [(s_, p) for s_, p, t in lv if vis.is_test_of(t, u)]
+        extra = [("" if p else "not ") + s_ for s_, p, t in lv if not vis.is_test_of(t, u) and not isinstance(t, ast.BoolOp)]
+        obs.append(Ob(R, label + ":pushed-exactly-when-unvisited", _where(fi, n),
+                      bool(neg) and all(not p for s_, p in neg) and not extra,
+                      "`%s` is guarded by visited tests %s and further conditions %s; expected the negative visited test "
+                      "of `%s` and nothing else" % (src(n), neg, extra, u)))
+        want = {(s_, p) for s_, p, t in lv}
+        marked = [m for m, x in vis.marks(fi.node) if x == u and {(s_, p) for s_, p, t in _leaves_wo_loop(wl, m)} == want]
+        obs.append(Ob(R, label + ":marked-when-pushed", _where(fi, n), bool(marked),
+                      "no mark of `%s` in `%s` under the same conditions as its push" % (u, vis.name)))
+        sites += 1
+    obs.append(Ob(R, label + ":has-an-expansion-site", _where(fi, wl.loop), sites >= 1, "%d push sites in the loop" % sites))
+    rets = [r for r in _own(fi.node) if isinstance(r, ast.Return)]
+    ok = len(rets) == 1 and not is_within(rets[0], wl.loop) and rets[0].value is not None and \
+        src(rets[0].value) in (vis.name, "set(%s)" % vis.name) and not _breaks_of(wl.loop)
+    obs.append(Ob(R, label + ":returns-the-closure-after-exhaustion", _where(fi, rets[0] if rets else None), ok,
+                  "expected a single `return %s` after the loop and no break out of it" % vis.name))
+    return obs
+
+
+# ---------------------------------------------------------------------------------------------------------------
 # R1: reachable / connected
 
 def _boolean_search(repo, name, both_directions):
